@@ -66,6 +66,7 @@ type vWriteRun struct {
 	startFaultArmed   bool           // the next START that would succeed finds its experiment-state file uncreatable
 	startFaultPlanted bool
 	startFaults       int             // how many START faults this history may still inject
+	badPathNext       bool            // the next START that would succeed names an unusable output path
 	gapMode           bool            // base path pre-populated with run directories (with holes) of today
 	preDirs           map[string]bool // directories that existed before the request being applied
 	hist              []string
@@ -304,6 +305,7 @@ func (w *vWriteRun) request(req string, l22, l3, of bool) bool {
 		}
 	}
 	wantErr := false
+	desc2 := ""
 	startFault := false
 	kind := "garbage"
 	label := ""
@@ -334,6 +336,16 @@ func (w *vWriteRun) request(req string, l22, l3, of bool) bool {
 		}
 		if m.active || !(l22 || l3 || of) || (of && !anyProj) {
 			wantErr = true
+		} else if w.badPathNext {
+			// an output path below a regular file: the run directory cannot be made; the request is refused and nothing
+			// that clients are told (base path included) may change
+			w.badPathNext = false
+			notdir := w.base + "_not_a_directory"
+			os.WriteFile(notdir, []byte("x"), 0o644)
+			cfg.Path = filepath.Join(notdir, "sub")
+			wantErr = true
+			desc2 = "[path below a regular file]"
+			c.Cov("starts_with_unusable_path", 1)
 		} else if w.startFaults > 0 && vChance(c.R, 0.15) {
 			// single I/O failure inside START: the request must be answered with an error and change nothing
 			w.startFaults--
@@ -364,6 +376,7 @@ func (w *vWriteRun) request(req string, l22, l3, of bool) bool {
 	if startFault {
 		desc += "[state file uncreatable]"
 	}
+	desc += desc2
 	w.hist = append(w.hist, desc)
 	err := ds.WriteControl(cfg)
 	if startFault {
@@ -388,6 +401,10 @@ func (w *vWriteRun) request(req string, l22, l3, of bool) bool {
 	after := ds.ComputeWritingState()
 	if wantErr {
 		c.Cov("rejected_"+kind, 1)
+		if before.BasePath != after.BasePath {
+			c.Violate("c06:rejected-changed-state", "rejected request %q changed the reported output base path from %q to %q (history %v)", desc, before.BasePath, after.BasePath, w.hist)
+			return false
+		}
 		if before.Active != after.Active || before.Paused != after.Paused || before.FilenamePattern != after.FilenamePattern ||
 			before.WriteLJH22 != after.WriteLJH22 || before.WriteLJH3 != after.WriteLJH3 || before.WriteOFF != after.WriteOFF {
 			c.Violate("c06:rejected-changed-state", "rejected request %q changed the reported state from {active %v paused %v %q} to {active %v paused %v %q}", desc,
@@ -874,6 +891,9 @@ func vRunWriteHistory(c *vCase, prop string) {
 		k := 1 + r.Intn(7)
 		if vChance(r, 0.07) {
 			k = 0
+		}
+		if vChance(r, 0.08) {
+			w.badPathNext = true
 		}
 		return w.request(vPick(r, "START", "Start", "start"), k&1 != 0, k&2 != 0, k&4 != 0)
 	}
